@@ -2,7 +2,7 @@
 import re
 
 from pvrules.mir import is_call, peel, show, strip_generics, subterms
-from pvrules.rules import (SELF_FIELD, agg_field, const_int, count_range, elem_of, find_aggs, ok_payloads, rejecting, result_assign_blocks,
+from pvrules.rules import (is_pos_inf_const, SELF_FIELD, agg_field, const_int, count_range, elem_of, find_aggs, ok_payloads, rejecting, result_assign_blocks,
                            try_continue_block)
 from . import hist_common as hcm
 
@@ -217,7 +217,7 @@ def rule_R3(ctx, f):
                 be = b.bool_edges(bi)
                 if be and be[0][0] == "binop" and be[0][1] == "Eq" and b.edge_dominates(bi, be[1], pops[0].bb):
                     x, y = be[0][2], be[0][3]
-                    infs = [z for z in (x, y) if isinstance(z, tuple) and z[0] in ("const", "constdef") and re.search(r"INFINITY|^\+?inf", str(z[1]))]
+                    infs = [z for z in (x, y) if is_pos_inf_const(z)]
                     lasts = [z for z in (x, y) if is_call(peel(z, transparent=["Option::unwrap", "Option::expect"]), ["slice::last", "Vec::last"])]
                     if len(infs) == 1 and len(lasts) == 1 and peel(peel(lasts[0], transparent=["Option::unwrap", "Option::expect"])[2][0]) == P(1):
                         guards = {"is_sign_positive", "is_infinite"}     # `last == +Inf` is the same test
